@@ -101,6 +101,13 @@ def c02_transition(ctx: Ctx) -> List[Violation]:
     for v in ctx.post.vehicles.values():
         if sname(v) == "ChargeQueueing" and sum(v.energy.values()) <= 0:
             ctx.cov["c02:queued_vehicle_empty"] += 1
+    for st in ctx.post.stations.values():
+        for cs in st.state.values():
+            if cs.total_chargers - cs.available_chargers >= 2 or cs.enqueued_vehicles >= 2:
+                ctx.cov["c02:two_holders"] += 1
+    for b in ctx.post.bases.values():
+        if b.total_stalls - b.available_stalls >= 2:
+            ctx.cov["c02:two_holders"] += 1
     bad = c02_state(ctx.post)
     if not bad:
         return []
